@@ -848,6 +848,26 @@ def main():
             degraded = fallback_from_dump(T, d)
         except Exception as e:  # noqa
             errors.append("fallback: %s" % e)
+    if errors and "--dump" in sys.argv:
+        # constants that are neither parseable any more nor part of the extensional dump (widths, mode indicators, buffer
+        # constants, mask offsets, string templates ...): keep the values recorded at authoring time. They are then NOT
+        # re-derived from the source; the tie for them is the correspondence check alone (a changed constant makes the model
+        # and the implementation disagree).
+        try:
+            base = json.load(open(os.path.join(VERIF, "tools", "tables_baseline.json")))
+            for k, v in base["tables"].items():
+                if k not in T:
+                    T[k] = v
+                    degraded.append("stale:" + k)
+            for k, v in base["strings"].items():
+                if k not in S:
+                    S[k] = v
+                    degraded.append("stale:" + k)
+        except Exception as e:  # noqa
+            errors.append("baseline fallback: %s" % e)
+    if "--write-baseline" in sys.argv and not errors:
+        with open(os.path.join(VERIF, "tools", "tables_baseline.json"), "w") as f:
+            json.dump({"tables": T, "strings": S}, f, indent=0, sort_keys=True)
     findings = purity_scan()
     os.makedirs(WORK, exist_ok=True)
     with open(os.path.join(WORK, "tables_parsed.json"), "w") as f:
